@@ -374,10 +374,15 @@ def run_job(args):
             for (vc, r, rec) in recs:
                 a = vc.info.get("attribute")
                 if a and r == "violation" and rec is not None:
-                    ok = all(r2 == "unsat" for (vc2, r2, _) in recs if vc2.name in a["requires_unsat"])
-                    present = any(vc2.name in a["requires_unsat"] for (vc2, _, _) in recs)
-                    if ok and present:
+                    comp = [r2 for (vc2, r2, _) in recs if vc2.name in a["requires_unsat"]]
+                    # the companion obligation (same meaning) was discharged - or, where the solver gave up on it, neither its models nor the numeric
+                    # candidate points produced a real run on which the two results differ (it is then counted as inconclusive on its own); a companion
+                    # that IS violated is reported as such and leaves this one unattributed
+                    ok = all(r2 in ("unsat", "unknown", "unreproduced") for r2 in comp)
+                    if ok and comp:
                         rec["attributed"] = a["finding"]
+                        if any(r2 != "unsat" for r2 in comp):
+                            rec["companion_inconclusive"] = True
             return recs
 
         def explore_and_tally(into):
@@ -643,6 +648,9 @@ def run_pool(prop_name, jobs, opts, procs, hard_s, deadline, recycle=40):
 
 def finish(prop, PROP, tier, seed, jobs, results, skipped, t0, opts):
     known = load_known()
+    if os.environ.get("VERIF_SLOWEST"):
+        for r in sorted(results, key=lambda r: -r.get("wall_s", 0))[:int(os.environ["VERIF_SLOWEST"])]:
+            print(f"  slow: {r.get('wall_s')}s paths={r.get('paths')} queries={r.get('queries')} {json.dumps({k: v for k, v in r['spec'].items() if k != 'id'})[:300]}")
     errors = [r for r in results if r["error"]]
     viol_lines, known_lines = [], []
     twins_expected = sum(1 for j in jobs if j.get("twin"))
